@@ -16,6 +16,7 @@
 #include <memory>
 #include <fcntl.h>
 #include <cerrno>
+#include <sys/prctl.h>
 
 using namespace vf;
 using ref::Q; using ref::Vec; using ref::Cell; using ref::Row;
@@ -57,6 +58,7 @@ static void build_menus() {
   CM.push_back(ge({-1, 0, -1}, 2));    // 18  A + C <= 2
   CM.push_back(ge({0, 1, -2}, 1));     // 19  B - 2C >= -1
   CM.push_back(eq({1, 1, 2}, -3));     // 20  A + B + 2C = 3
+  CM.push_back(eq({1, 1, 0}, -2));     // 21  A + B = 2             (given several times: redundant rows in phase 1)
   OM.push_back(LE({1, 0, 0}, 0));      // A
   OM.push_back(LE({0, 1, 0}, 0));      // B
   OM.push_back(LE({1, 1, 0}, 0));      // A + B
@@ -291,17 +293,25 @@ static std::unique_ptr<MIP> build_fresh(const Data& d, int pricing, bool via_cto
 // ------------------------------------------------------------------ guard for calls that may diverge
 // PPL's own cooperative cancellation: a CPU-time signal makes `abandon_expensive_computations` point to a throwable;
 // every simplex iteration calls maybe_abandon(), which throws it.  The object is discarded afterwards.
-// (A divergence that never reaches maybe_abandon() is caught by Pool's per-step alarm instead.)
 static double SANDBOX_S = 0.02, CONFIRM_S = 0.5;
 struct Abandoned : public PPL::Throwable { void throw_me() const { throw *this; } };
 static Abandoned ABANDONED;
-static void on_prof(int) { PPL::abandon_expensive_computations = &ABANDONED; }
+// The timer keeps ticking after the request: a computation that does not reach maybe_abandon() within HARD_S more
+// seconds of CPU (a loop without cancellation points) ends the worker with exit status 97; Pool then re-runs that very
+// transition alone, sees the same exit, and the parent reports it as a non-cooperative hang of that transition.
+static const double TICK_S = 0.25, HARD_S = 3.0;
+static volatile int TICKS_AFTER_REQUEST = 0;
+static void on_prof(int) {
+  if (PPL::abandon_expensive_computations == 0) { PPL::abandon_expensive_computations = &ABANDONED; TICKS_AFTER_REQUEST = 0; return; }
+  if (++TICKS_AFTER_REQUEST * TICK_S >= HARD_S) _exit(97);
+}
 // returns 0 if f() returned, SIGPROF if it was abandoned after cpu_s seconds, 1077 on memory exhaustion
 static int sandbox(const std::function<void()>& f, double cpu_s) {
   static bool installed = false;
   if (!installed) { struct sigaction sa; memset(&sa, 0, sizeof sa); sa.sa_handler = on_prof; sigaction(SIGPROF, &sa, 0); installed = true; }
   struct itimerval tv, off; memset(&tv, 0, sizeof tv); memset(&off, 0, sizeof off);
   tv.it_value.tv_sec = (long)cpu_s; tv.it_value.tv_usec = (long)((cpu_s - (long)cpu_s) * 1e6);
+  tv.it_interval.tv_sec = 0; tv.it_interval.tv_usec = (long)(TICK_S * 1e6);
   PPL::abandon_expensive_computations = 0;
   setitimer(ITIMER_PROF, &tv, 0);
   int rc = 0;
@@ -311,6 +321,16 @@ static int sandbox(const std::function<void()>& f, double cpu_s) {
   setitimer(ITIMER_PROF, &off, 0);
   PPL::abandon_expensive_computations = 0;
   return rc;
+}
+// Transition-wide watchdog on a second, independent timer (user CPU time): everything a transition executes outside
+// sandbox() -- clone, OK(), ascii_dump, the follow-up queries and the fresh problems of the oracle -- is library code too.
+static void on_vtalrm(int) { _exit(97); }
+static void watchdog(double cpu_s) {
+  static bool installed = false;
+  if (!installed) { struct sigaction sa; memset(&sa, 0, sizeof sa); sa.sa_handler = on_vtalrm; sigaction(SIGVTALRM, &sa, 0); installed = true; }
+  struct itimerval tv; memset(&tv, 0, sizeof tv);
+  tv.it_value.tv_sec = (long)cpu_s; tv.it_value.tv_usec = (long)((cpu_s - (long)cpu_s) * 1e6);
+  setitimer(ITIMER_VIRTUAL, &tv, 0);
 }
 static std::string sandbox_clause(int sig) {
   if (sig == SIGPROF) return "hang";
@@ -460,8 +480,7 @@ static const FreshAns& fresh_answers(const Data& d_in, const Reporter& rp) {
       std::unique_ptr<MIP> q = build_fresh(dd, pr, false);
       fa.sat[pr] = q->is_satisfiable();
     };
-    if (!rk) body();
-    else {
+    {
       count(CNT_SANDBOXED);
       int sig = sandbox(body, SANDBOX_S);
       if (sig) {
@@ -604,12 +623,12 @@ static std::unique_ptr<MIP> transition(const MIP& src, bool src_ok, bool& dst_ok
   { ProfT p_("t:clone"); c = clone(src); }
   Outcome out;
   ProfT p2_("t:rest");
-  bool guard = solve_like(o.k) && risky(d0);
+  bool guard = true;      // EVERY library call of the transition runs under the CPU guard (cooperative, then hard)
   if (solve_like(o.k) && rp.live) count(CNT_SOLVES);
   try {
     if (!guard) out = apply(c, d1, o);
     else {
-      if (rp.live) count(CNT_SANDBOXED);
+      if (rp.live && solve_like(o.k) && risky(d0)) count(CNT_SANDBOXED);
       int sig = sandbox([&]() { out = apply(c, d1, o); }, SANDBOX_S);
       if (sig) {
         wrong = true;
@@ -660,6 +679,8 @@ static const int TERMINAL_OPS[] = {SOLVE, ISSAT, OPTP};
 
 static void run_item(long long item, long long sub_start) {
   ProfT pt_("item");
+  prctl(PR_SET_PDEATHSIG, SIGKILL);      // a worker never outlives the harness process
+  if (getppid() == 1) _exit(0);
   const Item& it = ITEMS[item];
   const Init& in = INITS[it.init];
   CUR_INIT = it.init;
@@ -701,10 +722,12 @@ static void run_item(long long item, long long sub_start) {
         }
         Reporter rp; rp.init = it.init; rp.rec = src.rec; rp.op = opi; rp.d = &src.d; rp.live = live; rp.src = src.p.get();
         Data d1; bool wrong = false, dst_ok = true;
+        watchdog(8.0);
         std::unique_ptr<MIP> c = transition(*src.p, src.ok, dst_ok, src.d, d1, opi, rp, wrong);
         if (live) { count(CNT_TRANS); if (terminal) count(CNT_TERMINAL); }
-        if (!c || terminal) continue;
+        if (!c || terminal) { watchdog(0); continue; }
         Key key; { ProfT p_("t:dump"); key = key_of(dump_of(*c)); }
+        watchdog(0);
         if (!seen.insert(key).second) { if (live) count(CNT_MERGED); continue; }
         if (live) { count(CNT_STATES); if (d1.ints) count(CNT_INTSTATES); }
         RECS.push_back(Rec{src.rec, opi});
@@ -777,6 +800,8 @@ int main(int argc, char** argv) {
       {1, {0, 2}, 1, 0, false},          // 0<=A<=2, A integer, min A
       {2, {13, 14}, 0, 7, true},         // A=1, A-2B<=-1
       {3, {18, 19, 0}, 1, 10, true},     // unbounded in dimension 3
+      {2, {21, 21, 21}, 1, 0, true},     // the same equality three times (two redundant rows, the last tableau row among them), then batches of rows
+      {2, {13, 13, 13, 1}, 2, 1, false}, // A = 1 three times, B >= 0
     };
     for (size_t i = 0; i < seeds.size(); ++i) { Init in; in.d.dim = seeds[i].dim; in.d.rows = seeds[i].rows; in.d.ints = 0; in.d.obj = seeds[i].obj; in.d.maxi = seeds[i].maxi; in.via_ctor = true; INITS.push_back(in);
       Init in2 = in; in2.d.ints = seeds[i].ints; in2.via_ctor = false; if (seeds[i].ints) INITS.push_back(in2); }
@@ -803,7 +828,8 @@ int main(int argc, char** argv) {
     const CrashInfo& ci = CRASH[item % ARGS.jobs];
     std::vector<std::string> names, idx; Data d = INITS[ci.init].d; std::string site = "MIP_Problem";
     for (int q = 0; q < ci.n; ++q) { names.push_back(jstr(op_name(OPS[ci.ops[q]]))); idx.push_back(std::to_string(ci.ops[q])); site = op_site(OPS[ci.ops[q]].k); }
-    report_violation(site, std::string(sig == SIGALRM ? "hang" : "crash:") + (sig == SIGALRM ? "" : signame(sig)), "none",
+    bool is_hang = sig == SIGALRM || sig == 1097;      // 1097: the worker ended itself (exit 97) in a loop without cancellation points
+    report_violation(site, is_hang ? std::string("hang") : std::string("crash:") + signame(sig), "none",
                      J().num("init", ci.init).str("init_desc", init_name(INITS[ci.init])).arr("history", names).arr("ops", idx).num("item", item).num("sub", sub).done(),
                      signame(sig), "normal return");
   };
@@ -818,7 +844,7 @@ int main(int argc, char** argv) {
     return 0;
   }
   if (getenv("VERIF_PROFILE")) pool().at_worker_exit = []() { for (auto& kv : PROF) fprintf(stderr, "PROF %-30s %8.3f %8ld\n", kv.first.c_str(), kv.second.first, kv.second.second); };
-  pool().run((long long)ITEMS.size(), ARGS.jobs, fn, cf, ARGS, 90);   // wall clock, last resort only: divergence is caught by the CPU-time guard
+  pool().run((long long)ITEMS.size(), ARGS.jobs, fn, cf, ARGS, 60);   // wall clock, last resort only: divergence is caught by the CPU-time guard
   bool complete = counter(CNT_SKIPPED) == 0 && counter(CNT_REFCRASH) == 0;
   std::vector<std::string> samples;
   { Data d = INITS[n_empty + 1].d; RECS.clear(); RECS.push_back(Rec{-1, -1});
